@@ -106,8 +106,8 @@ def _violations(d, out):
         st = o.take()
         side = "r" if name in ("read", "fill_buf", "consume", "fill_read_buf", "poll_read",
                                "poll_fill_buf", "poll_read_uninit") else "w"
-        if side == "r" and name != "consume":
-            nreadops += 1     # each may have taken one answer of the inner reader
+        if name in ("fill_read_buf", "poll_read", "poll_read_uninit", "poll_fill_buf"):
+            nreadops += 1     # each may have made (at most) one call of the inner reader
         if st == 3:
             if sync:
                 v.append("%s returned Pending on the blocking-style adapter" % name)
@@ -205,7 +205,7 @@ def _violations(d, out):
         v.append("read buffer over limit: %d bytes buffered, max_buffer_size %d" % (len(buffered), mx))
     # end-of-file honesty
     zero_possible = (any(k == 2 or (k == 0 and a == 0) for (k, a) in d["rs"])
-                     or len([1 for (k, a) in d["rs"] if k != 3]) <= nreadops
+                     or len([1 for (k, a) in d["rs"] if k != 3]) < nreadops   # script exhausted
                      or remaining == 0)
     if (eof or eof_seen) and not zero_possible:
         v.append("false EOF: the adapter reported end-of-file, the inner stream still has %d bytes and "
